@@ -147,6 +147,90 @@ theorem fill_eq_join (env : Env) (mo : MinimaOracle α) (o : Opts) (t : Text) :
     simp [LineD.render, joinWith]
   · rfl
 
+/-! ### LF → CRLF equivariance -/
+
+/-- replace every `'\n'` by `"\r\n"` -/
+def replLF : Text → Text
+  | [] => []
+  | c :: cs => if c = LF then CR :: LF :: replLF cs else c :: replLF cs
+
+theorem replLF_noLF (t : Text) (h : LF ∉ t) : replLF t = t := by
+  induction t with
+  | nil => rfl
+  | cons c cs ih =>
+    have hc : c ≠ LF := fun he => h (by simp [he])
+    simp only [replLF, hc, if_false, ih (fun hm => h (by simp [hm]))]
+
+theorem replLF_append (a b : Text) : replLF (a ++ b) = replLF a ++ replLF b := by
+  induction a with
+  | nil => rfl
+  | cons c cs ih => simp only [List.cons_append, replLF, ih]; split <;> simp
+
+theorem replLF_head (t : Text) : (replLF t).head? ≠ some LF := by
+  cases t with
+  | nil => simp [replLF]
+  | cons c cs =>
+    simp only [replLF]
+    split
+    · simp [CR, LF]
+    · next h => simp [h]
+
+/-- the `"\r\n"` paragraphs of the substituted text are the `'\n'` paragraphs of the original -/
+-- @audit TW.C09.split_replace
+theorem split_replace (t : Text) : splitCRLF (replLF t) = splitLF t := by
+  induction t with
+  | nil => rfl
+  | cons c cs ih =>
+    simp only [replLF, splitLF]
+    split
+    · simp only [splitCRLF, and_self, if_true, ih]
+    · next hc =>
+      rw [splitCRLF_cons_nomatch c _ (fun h => replLF_head cs h.2), ih]
+
+theorem replLF_join (ls : List Text) (hno : ∀ l ∈ ls, LF ∉ l) :
+    replLF (joinWith [LF] ls) = joinWith [CR, LF] ls := by
+  induction ls with
+  | nil => rfl
+  | cons a r ih =>
+    cases r with
+    | nil => simp [joinWith, replLF_noLF a (hno a (by simp))]
+    | cons b r' =>
+      rw [joinWith_cons_cons, joinWith_cons_cons, replLF_append, replLF_append,
+        replLF_noLF a (hno a (by simp)), ih (fun l hl => hno l (by simp [hl]))]
+      simp [replLF]
+
+theorem reassemble_ending (o : Opts) (groups : List (List Word)) (line : Text) (idx n : Nat) :
+    reassemble { o with lineEnding := .crlf } line groups idx n = reassemble o line groups idx n := by
+  induction groups generalizing idx n with
+  | nil => rfl
+  | cons g gs ih =>
+    simp only [reassemble, ih]
+
+/-- **switching input and option from LF to CRLF changes the output only by that
+    substitution** (for results whose lines contain no line feed — e.g. indents without one):
+    the CRLF run sees the same paragraphs, hence wraps to the same lines, and joins them with
+    `"\r\n"` where the LF run uses `'\n'`. Stray `'\r'` characters in the text are covered. -/
+-- @audit TW.C09.crlf_equivariant
+theorem crlf_equivariant (env : Env) (mo : MinimaOracle α) (o : Opts) (hlf : o.lineEnding = .lf)
+    (t : Text) (ls : List Text) (hw : wrap env mo o t = some ls) (hno : ∀ l ∈ ls, LF ∉ l) :
+    fill env mo o t = some (joinWith [LF] ls) ∧
+    fill env mo { o with lineEnding := .crlf } (replLF t) = some (replLF (joinWith [LF] ls)) := by
+  have h1 : fill env mo o t = some (joinWith [LF] ls) := by
+    rw [fill_eq_join, hw, hlf]; rfl
+  refine ⟨h1, ?_⟩
+  rw [fill_eq_join, replLF_join ls hno]
+  have hsame : wrap env mo { o with lineEnding := .crlf } (replLF t) = wrap env mo o t := by
+    rw [wrap_eq_wrapR, wrap_eq_wrapR]
+    simp only [splitEnding, hlf, split_replace]
+    have hs : wrapSingleLine env mo { o with lineEnding := .crlf } = wrapSingleLine env mo o := by
+      funext line n
+      unfold wrapSingleLine wrapSingleLineSlow pipeline
+      simp only [reassemble_ending]
+    rw [hs]
+    exact wrapR_elen _ _ _ _ _ _ _
+  rw [hsame, hw]
+  rfl
+
 end
 
 end TW.C09
